@@ -37,6 +37,8 @@ def walk(hist):
     events, obs = hist["events"], hist["obs"]
     bound = {}     # c -> (app_hex, side_hex)
     holds = {}     # c -> (app_hex, mbox_hex): subscribed (successful open, not closed, mailbox still there)
+    named_np = {}  # c -> the nameplate the connection named in its (first) claim, refused-as-crowded included (FlagBridge.v)
+    named_mb = {}  # c -> the mailbox the connection named in its (last) open while holding none
     out = []
     for i, ev in enumerate(events):
         pre, post = obs[i], obs[i + 1]
@@ -47,6 +49,8 @@ def walk(hist):
         x.kind = x.base["k"] if ev["k"] != "restart" else "restart"
         x.bound_pre = dict(bound)
         x.holds_pre = dict(holds)
+        x.named_np_pre = dict(named_np)
+        x.named_mb_pre = dict(named_mb)
         x.c = x.base.get("c")
         x.msg = x.base.get("msg") if x.kind == "cmd" else None
         x.mtype = x.msg.get("type") if x.msg is not None else None
@@ -62,11 +66,22 @@ def walk(hist):
         elif x.kind == "disconnect":
             bound.pop(x.c, None)
             holds.pop(x.c, None)
+            named_np.pop(x.c, None)
+            named_mb.pop(x.c, None)
         elif x.kind == "cmd" and not x.crash:
             c, msg = x.c, x.msg
             if x.exc is not None:
                 bound.pop(c, None)
                 holds.pop(c, None)
+                named_np.pop(c, None)
+                named_mb.pop(c, None)
+            elif c in bound and x.error != "other":
+                if x.mtype == "claim" and isinstance(msg.get("nameplate"), str) and c not in named_np:
+                    named_np[c] = msg["nameplate"]
+                elif x.mtype == "open" and isinstance(msg.get("mailbox"), str) and c not in holds:
+                    named_mb[c] = msg["mailbox"]
+            if x.exc is not None:
+                pass
             elif x.ok:
                 if x.mtype == "bind" and c not in bound:
                     bound[c] = (H(msg["appid"]), H(msg["side"]))
@@ -77,6 +92,8 @@ def walk(hist):
         if ev["k"] in ("restart", "crash"):
             bound.clear()
             holds.clear()
+            named_np.clear()
+            named_mb.clear()
         # a mailbox that is gone takes its subscriptions with it
         live = set((r[0], r[1]) for r in post["chan"]["mb"])
         for c in list(holds):
@@ -216,8 +233,8 @@ def mon_C03(hist, ctxs, kf):
                 if isinstance(n, str):
                     n = H(n)
                 else:
-                    row = [r for r in x.pre["conns"] if r[0] == x.c]
-                    n = row[0][6] if row and isinstance(row[0][6], str) else None
+                    n = x.named_np_pre.get(x.c)
+                    n = H(n) if isinstance(n, str) else None
                 if n is not None and side in held.get((a, n), ()) and (a, side) not in unknown_alloc:
                     held[(a, n)].discard(side)
                     if not held[(a, n)]:
@@ -452,8 +469,8 @@ def _names_foreign_mailbox(x):
     m = x.msg.get("mailbox")
     m = H(m) if isinstance(m, str) else None
     if m is None:
-        row = [r for r in x.pre["conns"] if r[0] == x.c]
-        m = row[0][9] if row and isinstance(row[0][9], str) else None
+        m = x.named_mb_pre.get(x.c)
+        m = H(m) if isinstance(m, str) else None
     return m is not None and any(r[1] == m and r[0] != a for r in x.pre["chan"]["mb"])
 
 
@@ -527,8 +544,8 @@ def mon_C08(hist, ctxs, kf):
                 m = x.msg.get("mailbox")
                 m = H(m) if isinstance(m, str) else None
                 if m is None:
-                    row = [r for r in x.pre["conns"] if r[0] == x.c]
-                    m = row[0][9] if row and isinstance(row[0][9], str) else None
+                    m = x.named_mb_pre.get(x.c)
+                    m = H(m) if isinstance(m, str) else None
                 if m is not None and any(r[0] == a and r[1] == m for r in post["mb"]):
                     srow = [s for s in post["mbs"] if s[0] == m and s[2] == side]
                     if not srow or srow[0][1]:
